@@ -82,7 +82,13 @@ def main() -> int:
     for l, d in docs.union_model_docs()[:: (2 if quick else 1)]:
         d = docs.clone(d)
         d["info"]["title"] = "Option Test API"
-        d["components"]["schemas"] = dict(list(d["components"]["schemas"].items())[4:10] + list(d["components"]["schemas"].items())[:4] + list(d["components"]["schemas"].items())[10:])  # (the first six models get instances)
+        items_ = list(d["components"]["schemas"].items())
+        holders_ = [kv for kv in items_ if kv[0].startswith("H")]
+        # the first six models get instances: rotate through the union holders, those with integer enums first
+        holders_.sort(key=lambda kv: (0 if "Ie" in kv[0] else 1))
+        rot_ = (len(basedocs) * 3) % max(1, len(holders_))
+        first_ = (holders_[:3] + holders_[3:][rot_:rot_ + 3])[:6]
+        d["components"]["schemas"] = dict(first_ + [kv for kv in items_ if kv not in first_])
         basedocs.append((f"{l}", d, {"union_models", l}))
     # custom template directory: override one small template
     tdir = scratch() / "custom_templates"
